@@ -95,3 +95,18 @@ add("C09", "model_checking",
     "Leaf parameter values are one alphabet (three analytic parameter sets); trees above the "
     "leaf bound not explored; temperature refusal checked for correlation functions only.",
     "DESIGN.md §3 C09")
+add("C17", "model_checking",
+    "explicit-state search over all rate-assignment histories against a dictionary model; "
+    "exhaustive generator x axis x sub-axis product against the matrix exponential",
+    "H: BFS over every set_rate((i,j),v) history (all 9 index pairs incl. the refused diagonal, "
+    "v in {0,0.5,2}, depth 3 quick / 4 thorough, from an empty and from a data-constructed "
+    "matrix) on the real RateMatrix: column sums, every off-diagonal equals the last assigned "
+    "value, untouched elements untouched, refusals without change. G: 7 generators (2-state, "
+    "cycle with complex eigenvalues, defective chains of 3 and 4, distinct chain, disconnected, "
+    "full) x time axes x all unit initial vectors: sum conserved (1e-10), non-negativity and "
+    "agreement with scipy expm within a per-case computed truncation bound of the order-4 "
+    "expansion; get_PropagationMatrix on EVERY compatible sub-axis (start index, stride, length) "
+    "equals expm(K (t_i - t_start)) to 1e-9.",
+    "Rate values and step sizes from the alphabets (||K||dt <= 0.25); rate matrices of "
+    "dimension <= 4; sub-axes limited to stride <= 10 and start index <= 12.",
+    "DESIGN.md §3 C17")
